@@ -9,6 +9,8 @@ Correspondence: trace inclusion. The real dag.Walker (optionally with the real T
 Oracle (no model): on the real trace — every dependency's successful end precedes the dependant's start,
                no callback is entered twice, commands only inside their callback, overlap <= workers.
 """
+import concurrent.futures as cf
+import json, os
 from checks import _walker as W
 
 PROPERTY = "C03"
@@ -29,6 +31,8 @@ OBLIGATIONS = [
     "Grog.C03.no_second_wake",
     "Grog.C03.running_le_workers",
     "Grog.C03.no_command_start_under_cancelled_context",
+    "Grog.C03.exec_at_most_once_partial",
+    "Grog.C03.exec_more_than_once_witness",
 ]
 ASSUMPTIONS = [
     "selection closed under dependencies and graph acyclic (CfgOK; discharged by the selection / analysis properties C12, C11)",
@@ -125,11 +129,107 @@ def run(ctx):
                            "model": m}, found_input=False)
     for c, o in list(zip(cases, outs))[:2]:
         ctx.sample({"n": c["n"], "family": c["family"], "failFast": c["failFast"], "workers": c["workers"], "trace_head": o.get("trace", [])[:8]})
+    run_cli(ctx)
+    ctx.coverage["evaluations"] += ctx.coverage.get("cli_builds", 0) + ctx.coverage.get("oncomplete_step_cases", 0)
     if disagreements and not ctx.violations:
         c, o, r = min(disagreements, key=lambda t: t[0]["n"])
         ctx.violation("a trace of the real walker is not a run of the model: " + str(r.get("why", r)),
                       {"kind": "correspondence", "correspondence": "walker.run trace vs GrogModel.Walker.step", "case": c, "impl": o, "model": r,
                        "n_disagreements": len(disagreements)}, found_input=False)
+
+
+def cli_case(ctx, idx, seed):
+    """one cold build through the real CLI; oracle on the O_APPEND trace of the commands"""
+    import random
+    rng = random.Random(seed)
+    pick = rng.random()
+    if pick < 0.25:
+        n, edges, fam = W.g_fanout(rng.randint(3, 6))
+    elif pick < 0.45:
+        n, edges, fam = W.g_diamonds(rng.randint(1, 2))
+    elif pick < 0.6:
+        n, edges, fam = W.g_forest(rng.randint(6, 10))
+    else:
+        n, edges, fam = W.g_layered(rng, rng.randint(5, 10), rng.randint(2, 4), 2)
+    workers = rng.choice([1, 2, 3, 8])
+    mode = rng.choice(["all", "minimal"])
+    sleep = [rng.choice([0, 0.05, 0.12]) for _ in range(n)]
+    ws = W.CliWs(ctx, f"c03-{idx}", n, edges, sleep=sleep, workers=workers)
+    ins, outs = W.deps_of(n, edges), W.dependants(n, edges)
+    nocache = sorted(m for m in range(n) if rng.random() < 0.25)
+    if nocache:
+        p = os.path.join(ws.ws, "pkg", "BUILD.json")
+        j = json.load(open(p))
+        for m in nocache:
+            j["targets"][m]["tags"] = ["no-cache"]
+        json.dump(j, open(p, "w"))
+    b = ws.build(flags=("--load-outputs=" + mode,))
+    res = {"n": n, "edges": edges, "family": fam, "workers": workers, "mode": mode, "nocache": nocache, "rc": b["rc"], "bad": []}
+    bad = res["bad"]
+    if b["rc"] != 0:
+        bad.append(("build-failed", f"cold build exited {b['rc']}: {b['out'][-300:]}"))
+    open_cmds, done_ok, starts = set(), set(), {}
+    peak = 0
+    for k, m, _ in b["trace"]:
+        if k == "s":
+            starts[m] = starts.get(m, 0) + 1
+            for d in ins[m]:
+                if d not in done_ok:
+                    bad.append(("started-before-dependency-succeeded", f"command of t{m} started before its dependency t{d} ended"))
+            open_cmds.add(m)
+            peak = max(peak, len(open_cmds))
+        else:
+            open_cmds.discard(m)
+            done_ok.add(m)
+    res["peak"], res["starts"] = peak, starts
+    if peak > workers:
+        bad.append(("more-commands-than-workers", f"{peak} target commands ran at the same time with num_workers={workers}"))
+    for m, k in sorted(starts.items()):
+        if k > 1:
+            if mode == "minimal" and m in nocache and outs[m]:
+                bad.append(("executed-more-than-once:minimal-mode-no-cache-dependency",
+                            f"load_outputs=minimal: the no-cache target t{m} with {len(outs[m])} dependants ran {k} times in one build"))
+            else:
+                bad.append(("executed-more-than-once", f"target t{m} ran {k} times in one build (mode {mode})"))
+    if set(starts) != set(range(n)) and b["rc"] == 0:
+        bad.append(("selected-target-not-executed", f"cold build did not execute {sorted(set(range(n)) - set(starts))}"))
+    # the re-run model (GrogModel.Pool.execCount) for no-cache roots whose dependants are cacheable
+    res["model_counts"] = {}
+    for m in nocache:
+        if mode == "minimal" and not ins[m] and all(x not in nocache for x in outs[m]) and all(all(y not in nocache or y == m for y in ins[x]) for x in outs[m]):
+            res["model_counts"][m] = (1 + len(outs[m]), starts.get(m, 0))
+    if bad:
+        res["out"] = b["out"][-800:]
+    ws.cleanup()
+    return res
+
+
+def run_cli(ctx):
+    quick = ctx.tier == "quick"
+    if ctx.grog_binary() is None:
+        return
+    seeds = [ctx.rng.randrange(1 << 30) for _ in range(24 if quick else 240)]
+    results = []
+    with cf.ThreadPoolExecutor(max_workers=4) as ex:
+        for f in [ex.submit(cli_case, ctx, i, s) for i, s in enumerate(seeds)]:
+            results.append(f.result())
+    count_bad = []
+    for r in results:
+        for sig, msg in r["bad"]:
+            ctx.violation(msg, {"kind": "oracle", "oracle": "CLI command trace", "build": r}, signature=sig)
+        for m, (exp, got) in r["model_counts"].items():
+            if exp != got:
+                count_bad.append((r, m, exp, got))
+    ctx.coverage["cli_builds"] = len(results)
+    ctx.coverage["cli_modes"] = {m: sum(1 for r in results if r["mode"] == m) for m in ("all", "minimal")}
+    ctx.coverage["cli_workers"] = {str(w): sum(1 for r in results if r["workers"] == w) for w in (1, 2, 3, 8)}
+    ctx.coverage["cli_peak_overlap"] = max([r["peak"] for r in results] or [0])
+    ctx.coverage["cli_with_nocache"] = sum(1 for r in results if r["nocache"])
+    ctx.coverage["cli_rerun_counts_compared"] = sum(len(r["model_counts"]) for r in results)
+    if count_bad and not ctx.violations:
+        r, m, exp, got = count_bad[0]
+        ctx.violation(f"re-run count of no-cache target t{m}: real {got}, model (execCount) {exp}",
+                      {"kind": "correspondence", "correspondence": "CLI execution count vs GrogModel.Pool.execCount", "build": r}, found_input=False)
 
 
 def replay(ctx, rep):
